@@ -53,7 +53,11 @@ def cultures : List Culture := [en, es, esMx, fr, pt, de, it, nl, zh, ja]
 
 def cultureOf (code : List Nat) : Option Culture := cultures.find? fun c => c.code = code
 
-def zhCjk : CjkCfg := ⟨NumZh.zeroToNine, NumZh.roundChar, NumZh.roundDirect, NumZh.tenChars, NumZh.zeroChar, false⟩
-def jaCjk : CjkCfg := ⟨NumJa.zeroToNine, NumJa.roundChar, NumJa.roundDirect, NumJa.tenChars, NumJa.zeroChar, true⟩
+/-- `Culture.Japanese` = "ja-jp": the flag `culture_info.code == Culture.Japanese` is computed from the regenerated code -/
+def japaneseCode : List Nat := [106, 97, 45, 106, 112]
+def zhCjk : CjkCfg := ⟨NumZh.zeroToNine, NumZh.roundChar, NumZh.roundDirect, NumZh.tenChars, NumZh.zeroChar,
+  NumZh.cultureInfoCode == japaneseCode⟩
+def jaCjk : CjkCfg := ⟨NumJa.zeroToNine, NumJa.roundChar, NumJa.roundDirect, NumJa.tenChars, NumJa.zeroChar,
+  NumJa.cultureInfoCode == japaneseCode⟩
 
 end RTV.Num
